@@ -38,14 +38,14 @@ type Vector struct {
 }
 
 type Violation struct {
-	ID      string   `json:"id"`
-	Kind    string   `json:"kind"`
-	Where   string   `json:"where"`
-	Detail  string   `json:"detail,omitempty"`
-	KF      string   `json:"known_finding,omitempty"`
-	Vector  Vector   `json:"vector"`
-	Pred    []string `json:"predicted_log,omitempty"`
-	Input   string   `json:"input"`
+	ID     string   `json:"id"`
+	Kind   string   `json:"kind"`
+	Where  string   `json:"where"`
+	Detail string   `json:"detail,omitempty"`
+	KF     string   `json:"known_finding,omitempty"`
+	Vector Vector   `json:"vector"`
+	Pred   []string `json:"predicted_log,omitempty"`
+	Input  string   `json:"input"`
 }
 
 type Witness struct {
@@ -56,30 +56,31 @@ type Witness struct {
 }
 
 type JobResult struct {
-	Spec         JobSpec               `json:"spec"`
-	Status       string                `json:"status"` // ok | violation | inconclusive | error
-	Error        string                `json:"error,omitempty"`
-	Violations   []Violation           `json:"violations,omitempty"`
-	Known        []Violation           `json:"known,omitempty"`
-	Witnesses    []Witness             `json:"witnesses,omitempty"`
-	Asserts      map[string]AssertStat `json:"asserts"`
-	Reach        map[string]string     `json:"reach"`
-	Obligations  int                   `json:"obligations"`
-	Discharged   int                   `json:"discharged"`
-	Inconclusive int                   `json:"inconclusive"`
-	Stats        Stats                 `json:"stats"`
-	Terms        int                   `json:"terms"`
-	SolverQ      int                   `json:"solver_queries"`
-	SolverMs     float64               `json:"solver_ms"`
-	SolverMaxMs  float64               `json:"solver_max_ms"`
-	SolverErrors []string              `json:"solver_errors,omitempty"`
-	ExecS        float64               `json:"exec_s"`
-	WallS        float64               `json:"wall_s"`
-	Funcs        map[string]int        `json:"functions,omitempty"`
-	GlobalStores []string              `json:"global_stores,omitempty"`
-	GlobalLoads  []string              `json:"global_loads,omitempty"`
-	NVars        int                   `json:"nvars"`
-	FeasKinds    map[string]int        `json:"feas_kinds,omitempty"`
+	Spec            JobSpec               `json:"spec"`
+	Status          string                `json:"status"` // ok | violation | inconclusive | error
+	Error           string                `json:"error,omitempty"`
+	Violations      []Violation           `json:"violations,omitempty"`
+	Known           []Violation           `json:"known,omitempty"`
+	Witnesses       []Witness             `json:"witnesses,omitempty"`
+	Asserts         map[string]AssertStat `json:"asserts"`
+	Reach           map[string]string     `json:"reach"`
+	Obligations     int                   `json:"obligations"`
+	Discharged      int                   `json:"discharged"`
+	Inconclusive    int                   `json:"inconclusive"`
+	InconclusiveIDs []string              `json:"inconclusive_ids,omitempty"`
+	Stats           Stats                 `json:"stats"`
+	Terms           int                   `json:"terms"`
+	SolverQ         int                   `json:"solver_queries"`
+	SolverMs        float64               `json:"solver_ms"`
+	SolverMaxMs     float64               `json:"solver_max_ms"`
+	SolverErrors    []string              `json:"solver_errors,omitempty"`
+	ExecS           float64               `json:"exec_s"`
+	WallS           float64               `json:"wall_s"`
+	Funcs           map[string]int        `json:"functions,omitempty"`
+	GlobalStores    []string              `json:"global_stores,omitempty"`
+	GlobalLoads     []string              `json:"global_loads,omitempty"`
+	NVars           int                   `json:"nvars"`
+	FeasKinds       map[string]int        `json:"feas_kinds,omitempty"`
 }
 
 func (e *Engine) vectorOf(model []uint64) Vector {
@@ -224,11 +225,12 @@ func RunJob(p *Program, spec JobSpec, kfAccept map[string]bool) (res *JobResult)
 	}
 	sort.Strings(res.GlobalLoads)
 
-	// discharge obligations: group failures by (id, kind, kf)
+	// discharge obligations: group failures by (id, kind, kf); every group is
+	// decided in chunks of cubes (a violating cube makes the group sat)
 	type grp struct {
 		id, kind, kf string
-		viol         *Term // guard ∧ ¬cond ∧ ¬known
-		known        *Term // guard ∧ ¬cond ∧ known
+		viol         []*Term // per cube: cube ∧ ¬cond ∧ ¬known
+		known        []*Term // per cube: cube ∧ ¬cond ∧ known
 		where        string
 		detail       string
 		n            int
@@ -239,31 +241,73 @@ func RunJob(p *Program, spec JobSpec, kfAccept map[string]bool) (res *JobResult)
 		key := f.Kind + "|" + f.ID + "|" + f.KFID
 		g := groups[key]
 		if g == nil {
-			g = &grp{id: f.ID, kind: f.Kind, kf: f.KFID, viol: e.ts.False, known: e.ts.False, where: f.Where, detail: f.Detail}
+			g = &grp{id: f.ID, kind: f.Kind, kf: f.KFID, where: f.Where, detail: f.Detail}
 			groups[key] = g
 			order = append(order, key)
 		}
 		g.n++
-		bad := e.snapTerm(f.Snap)
-		if f.Extra != nil {
-			bad = e.ts.And(bad, f.Extra)
-		}
-		if f.Cond != nil {
-			bad = e.ts.And(bad, e.ts.Not(f.Cond))
-		}
-		if f.Known != nil && f.KFID != "" && e.kfAccept[f.KFID] {
-			g.known = e.ts.Or(g.known, e.ts.And(bad, f.Known))
-			g.viol = e.ts.Or(g.viol, e.ts.And(bad, e.ts.Not(f.Known)))
-		} else {
-			g.viol = e.ts.Or(g.viol, bad)
+		for _, cb := range f.Snap.cubes {
+			bad := e.g.term([]*Cube{cb})
+			if f.Extra != nil {
+				bad = e.ts.And(bad, f.Extra)
+			}
+			if f.Cond != nil {
+				bad = e.ts.And(bad, e.ts.Not(f.Cond))
+			}
+			if bad.IsConst() && bad.C == 0 {
+				continue
+			}
+			if f.Known != nil && f.KFID != "" && e.kfAccept[f.KFID] {
+				if k := e.ts.And(bad, f.Known); !(k.IsConst() && k.C == 0) {
+					g.known = append(g.known, k)
+				}
+				if v := e.ts.And(bad, e.ts.Not(f.Known)); !(v.IsConst() && v.C == 0) {
+					g.viol = append(g.viol, v)
+				}
+			} else {
+				g.viol = append(g.viol, bad)
+			}
 		}
 	}
 	sort.Strings(order)
 	res.Status = "ok"
+	// decide: is any of the terms satisfiable? chunks of 48 terms per query
+	decide := func(terms []*Term) (SatResult, []uint64) {
+		anyUnknown := false
+		for i := 0; i < len(terms); i += 48 {
+			j := min(i+48, len(terms))
+			q := e.ts.False
+			for _, t := range terms[i:j] {
+				q = e.ts.Or(q, t)
+			}
+			r, model := e.sol.CheckOneShot(q, true, e.cfg.FinalTimeoutMs)
+			if r == Sat {
+				return Sat, model
+			}
+			if r == Unknown && j-i > 1 {
+				// retry the members one by one
+				for _, t := range terms[i:j] {
+					r1, m1 := e.sol.CheckOneShot(t, true, e.cfg.FinalTimeoutMs)
+					if r1 == Sat {
+						return Sat, m1
+					}
+					if r1 == Unknown {
+						anyUnknown = true
+					}
+				}
+			} else if r == Unknown {
+				anyUnknown = true
+			}
+		}
+		if anyUnknown {
+			return Unknown, nil
+		}
+		return Unsat, nil
+	}
 	for _, key := range order {
 		g := groups[key]
 		res.Obligations++
-		r, model := e.sol.CheckOneShot(g.viol, true, e.cfg.FinalTimeoutMs)
+		r, model := decide(g.viol)
 		switch r {
 		case Unsat:
 			res.Discharged++
@@ -275,13 +319,14 @@ func RunJob(p *Program, spec JobSpec, kfAccept map[string]bool) (res *JobResult)
 			res.Status = "violation"
 		default:
 			res.Inconclusive++
+			res.InconclusiveIDs = append(res.InconclusiveIDs, g.id)
 			if res.Status == "ok" {
 				res.Status = "inconclusive"
 			}
 		}
-		if !g.known.IsConst() || g.known.C != 0 {
+		if len(g.known) > 0 {
 			res.Obligations++
-			r, model := e.sol.CheckOneShot(g.known, true, e.cfg.FinalTimeoutMs)
+			r, model := decide(g.known)
 			switch r {
 			case Sat:
 				res.Discharged++
@@ -292,6 +337,7 @@ func RunJob(p *Program, spec JobSpec, kfAccept map[string]bool) (res *JobResult)
 				res.Discharged++
 			default:
 				res.Inconclusive++
+				res.InconclusiveIDs = append(res.InconclusiveIDs, g.id)
 				if res.Status == "ok" {
 					res.Status = "inconclusive"
 				}
@@ -313,7 +359,7 @@ func RunJob(p *Program, spec JobSpec, kfAccept map[string]bool) (res *JobResult)
 		for _, g := range e.reach[k] {
 			for _, cb := range g.cubes {
 				tried++
-				r, model = e.sol.Check(e.g.term([]*Cube{cb}), true)
+				r, model = e.sol.CheckOneShot(e.g.term([]*Cube{cb}), true, 60000)
 				if r == Sat || tried > 20 {
 					break search
 				}
